@@ -334,6 +334,7 @@ Definition item_cmd (it : item) (c : cmd) : Prop :=
       denotes rs raw /\
       (c = Extend 0 a (H a raw) \/
        c = LogAdd 0 a (H a raw) EV_S_CRTM_CONTENTS (Some (pcr0_data_descr a)))
+  | IPanic => False
   end.
 
 (** the same one level lower: the commands of one action *)
@@ -461,7 +462,7 @@ Qed.
 Lemma compile_item_cmds t it acts a c :
   algos t = supported -> compile_item t it = Ok acts -> In a acts -> act_cmd a c -> item_cmd it c.
 Proof.
-  intros Ha Ec Hi Hc. destruct it as [l|l wl|l|p src ty evd|p src al|p al dg ty evd|r1 r256];
+  intros Ha Ec Hi Hc. destruct it as [l|l wl|l|p src ty evd|p src al|p al dg ty evd|r1 r256|];
     cbn [BootSim.compile_item] in Ec; cbn [item_cmd].
   - inversion Ec; subst acts. destruct Hi as [<-|[]]. exact Hc.
   - inversion Ec; subst acts. destruct Hi as [<-|Hi]; [left; exact Hc|].
@@ -481,6 +482,7 @@ Proof.
       exists ALG_SHA1, rs, raw. auto.
     + destruct (pcr0_pair_cmds _ _ _ _ _ E2 Hi Hc) as (rs & raw & -> & Hd & Hcc).
       exists ALG_SHA256, rs, raw. auto.
+  - inversion Ec; subst acts. destruct Hi as [<-|[]]. exact Hc.
 Qed.
 
 Lemma compile_step_in t its : forall acts a,
@@ -730,11 +732,12 @@ Definition readable_item (it : item) : Prop :=
   match it with IPCR0Data r1 r256 => readable r1 /\ readable r256 | _ => True end.
 
 (** a measurement whose extend comes with its log-add: TPMEvent (with a proper
-    event type) or the PCR0_DATA pair *)
+    event type) or the PCR0_DATA pair; a Panic step does nothing to the TPM *)
 Definition meas_item (it : item) : Prop :=
   match it with
   | IEvent _ _ ty _ => ty <> EV_NO_ACTION
   | IPCR0Data r1 r256 => readable r1 /\ readable r256
+  | IPanic => True
   | _ => False
   end.
 
@@ -783,7 +786,7 @@ Lemma meas_item_Inv l b t it acts s :
   meas_item it -> compile_item t it = Ok acts -> Inv l b (s_tpm s) ->
   Inv l b (s_tpm (fst (run_acts s acts))).
 Proof.
-  intros Hm Ec HI. destruct it as [l0|l0 wl|l0|p src ty evd|p src al|p al dg ty evd|r1 r256];
+  intros Hm Ec HI. destruct it as [l0|l0 wl|l0|p src ty evd|p src al|p al dg ty evd|r1 r256|];
     cbn [meas_item] in Hm; try contradiction; cbn [BootSim.compile_item] in Ec.
   - inversion Ec; subst acts. cbn [BootSim.run_acts BootSim.apply_act].
     destruct src as [d| |]; try (cbn [fst]; exact HI).
@@ -796,6 +799,7 @@ Proof.
     inversion Ec; subst acts. rewrite run_acts_app.
     apply (pcr0_pair_Inv l b ALG_SHA256 r256 y _ eq_refl E2).
     apply (pcr0_pair_Inv l b ALG_SHA1 r1 x _ eq_refl E1). exact HI.
+  - inversion Ec; subst acts. cbn [BootSim.run_acts BootSim.apply_act fst]. exact HI.
 Qed.
 
 (** ** Steps can be flattened: [Step.Actions] only reads SupportedAlgos *)
@@ -825,7 +829,7 @@ Qed.
 
 Lemma compile_item_readable t it : readable_item it -> exists acts, compile_item t it = Ok acts.
 Proof.
-  destruct it as [l0|l0 wl|l0|p src ty evd|p src al|p al dg ty evd|r1 r256]; cbn [BootSim.compile_item readable_item];
+  destruct it as [l0|l0 wl|l0|p src ty evd|p src al|p al dg ty evd|r1 r256|]; cbn [BootSim.compile_item readable_item];
     try (intros _; eexists; reflexivity).
   assert (P : forall a r, readable r -> exists x, pcr0_pair a r = Ok x).
   { intros a [rs|] Hr; cbn [BootSim.pcr0_pair]; [|eexists; reflexivity].
